@@ -91,6 +91,8 @@ def traced_work(traced_ev, costs, ops):
     evs = traced_ev.split()
     entered = True  # the entry function is entered before the first instruction
     for k, e in enumerate(evs):
+        if e[0] in "ia":
+            continue
         if e.isdigit():
             fi, pc = ids[int(e)]
             if entered:
